@@ -52,11 +52,17 @@ def build_harness(features=("likelysubtags", "serde", "macros"), profile="releas
     lock = os.path.join(HARNESS, "Cargo.lock")
     if not os.path.exists(lock):
         shutil.copy(os.path.join(REPO, "Cargo.lock"), lock)
-    cmd = ["cargo", "build", "--offline", "--no-default-features"] + (["--release"] if profile == "release" else [])
-    if features:
-        cmd += ["--features", key]
+    base = ["cargo", "build", "--offline", "--no-default-features"] + (["--release"] if profile == "release" else [])
     t0 = time.time()
-    p = subprocess.run(cmd, cwd=HARNESS, env=env, stdout=subprocess.PIPE, stderr=subprocess.STDOUT, text=True)
+    # the #[doc(hidden)] streaming readers are "not stable": first with them (harness feature iterapi), and if that does
+    # not build, without -- MC_Iter is then skipped (its cases count as iter_api_not_built), nothing else changes
+    p = subprocess.run(base + ["--features", ",".join([f for f in sorted(features)] + ["iterapi"])], cwd=HARNESS, env=env,
+                       stdout=subprocess.PIPE, stderr=subprocess.STDOUT, text=True)
+    if p.returncode != 0:
+        first = p.stdout
+        p = subprocess.run(base + (["--features", key] if features else []), cwd=HARNESS, env=env, stdout=subprocess.PIPE, stderr=subprocess.STDOUT, text=True)
+        if p.returncode == 0:
+            log("[build] harness built WITHOUT the streaming-reader API (feature iterapi did not compile): %s" % first[-300:].replace("\n", " "))
     if p.returncode != 0:
         raise ToolError("harness build failed (features=%s, profile=%s):\n%s" % (key, profile, p.stdout[-4000:]))
     binp = os.path.join(tdir, "release" if profile == "release" else "debug", "ulverif")
